@@ -12,15 +12,17 @@ class P(Prop):
     MODULE = "C07"
     THEOREMS = (["C07_shapes", "C07_lane_rounded"] +
                 ["C07_Poly%d_%s" % (k, w) for k in range(8) for w in ("indefinite", "integral", "knot", "knot_float")] +
-                ["C07_antiderivative", "C07_roundtrip_exact", "C07_example"])
+                ["C07_Poly%d_roundtrip_lanes" % k for k in range(8)] +
+                ["C07_antiderivative", "C07_roundtrip_exact", "C07_roundtrip_one_ulp", "C07_divisors_ok",
+                 "C07_roundtrip_refuted_when_subnormal", "C07_example"])
     KERNELS = (["Poly%d::indefinite" % k for k in range(8)] + ["Poly%d::integral" % k for k in range(8)] +
                ["Segment<Poly%d>::indefinite" % k for k in range(8)] + ["Segment<Poly%d>::integral" % k for k in range(8)] +
                ["Poly%d::derivative" % k for k in range(1, 9)])
     RULE = ("PolyK::indefinite/integral and the Segment variants (K=0..7): lanes checked in Coq for all inputs; kernels run "
             "bit-exactly against the crate on all finite coefficient styles and knots with x in {0, +-tiny (< 2^-52), +-1, "
-            "+-huge, random}, incl. the all-zero polynomial with non-zero knot.y; the exact rational oracle checks the "
+            "+-huge, random}, sparse polynomials (exact zeros in arbitrary lanes), incl. the all-zero polynomial with non-zero knot.y; the exact rational oracle checks the "
             "coefficients (correctly rounded c_i/(i+1)), F(knot.x)=knot.y within the rounding bound, and the 1-ulp round trip "
-            "derivative(indefinite p). non-trivial = degree>=1 and knot.x not in {0,1}; distinct by input")
+            "derivative(indefinite p) on EVERY finite coefficient incl. a class whose quotients are subnormal (known finding D4). non-trivial = degree>=1 and knot.x not in {0,1}; distinct by input")
     TRUSTED = ["translator rs2coq"]
     ASSUMPTIONS = ["IEEE-754 binary64 division / fma"]
 
@@ -30,7 +32,33 @@ class P(Prop):
         y = rng.choice([0.0, 3.0, -4.0, rng.uniform(-10, 10), rng.f64_loguniform(-20, 20)])
         return x, y
 
+    def tiny_coeffs(self, rng, n):
+        """coefficients around the bottom of the binary64 range: quotients c_i/(i+1) subnormal or barely normal"""
+        out = []
+        for _ in range(n):
+            r = rng.random()
+            if r < 0.4:
+                out.append(C.fl(rng.randint(1, 40)) * rng.choice([1.0, -1.0]))       # a few units of the smallest subnormal
+            elif r < 0.7:
+                out.append(rng.choice([1.0, -1.0]) * 2.0 ** -1022 * rng.uniform(0.5, 12.0))
+            elif r < 0.85:
+                out.append(rng.choice([1.0, -1.0]) * 2.0 ** rng.randint(-1074, -1015))
+            else:
+                out.append(rng.uniform(-2, 2))
+        return out
+
     def coeffs(self, rng, n):
+        cs = self.coeffs0(rng, n)
+        if n >= 2 and rng.random() < 0.3:
+            # sparse polynomials: exact zeros in some lanes (any lane, incl. next to the leading one), the rest untouched
+            for i in range(n):
+                if rng.random() < 0.4:
+                    cs[i] = rng.choice([0.0, 0.0, -0.0])
+            if rng.random() < 0.5 and cs[-1] == 0:
+                cs[-1] = rng.choice([8.0, -3.0, rng.uniform(-2, 2)])
+        return cs
+
+    def coeffs0(self, rng, n):
         r = rng.random()
         if r < 0.12:
             return [rng.choice([0.0, -0.0]) for _ in range(n)]
@@ -50,6 +78,8 @@ class P(Prop):
                 out.append(K.kernel_case("Poly%d::integral" % k, cs + [x, y], cls="integral"))
             for _ in range(max(2, per // 2)):
                 out.append(K.kernel_case("Poly%d::indefinite" % k, self.coeffs(rng, k + 1), cls="indefinite"))
+            for _ in range(max(2, per // 3)):
+                out.append(K.kernel_case("Poly%d::indefinite" % k, self.tiny_coeffs(rng, k + 1), cls="indefinite/tiny"))
             for _ in range(max(1, per // 3)):
                 cs = self.coeffs(rng, k + 1)
                 x, y = self.knot(rng)
@@ -86,7 +116,7 @@ class P(Prop):
             # round trip: derivative(indefinite p) within one ulp of p
             for i in range(1, n):
                 back = float(i + 1) * C.fl(r[i + 1])
-                if back == back and abs(back) != float("inf") and cs[i] != 0 and abs(cs[i]) > 1e-290:
+                if back == back and abs(back) != float("inf"):
                     ulps = abs(C.ordered_key(C.bits(back)) - C.ordered_key(C.bits(cs[i])))
                     if ulps > 1:
                         return "derivative(indefinite) returns coefficient %d as %r, %d ulps from %r" % (i, back, ulps, cs[i])
